@@ -513,6 +513,29 @@ pub fn run(name: &str) -> Option<bool> {
             let p = build_options(&o);
             crate::outcome::run(&p, &bytes(&["sleep", "1.5", "w0"])).is_value()
         }
+        // C02: `fetch -K -?` prints the help of `fetch`, `fetch -K?` is an unexpected word
+        "subcommand_help_letter_in_cluster" => {
+            let mut copts = OptSpec::plain(Spec::Seq(vec![item(11, Names::short('K'), Leaf::Switch)]));
+            copts.descr = Some("d".into());
+            copts.help_names = Some(Names {
+                shorts: vec!['?'],
+                longs: vec!["usage".to_string()],
+                envs: vec![],
+            });
+            let cmd = Spec::Cmd(Box::new(CmdSpec {
+                id: 10,
+                names: vec!["fetch".to_string()],
+                shorts: vec![],
+                help: None,
+                adjacent: false,
+                opts: copts,
+            }));
+            let o = OptSpec::plain(Spec::Seq(vec![cmd]));
+            let p = build_options(&o);
+            let split = crate::outcome::run(&p, &bytes(&["fetch", "-K", "-?"]));
+            let fused = crate::outcome::run(&p, &bytes(&["fetch", "-K?"]));
+            matches!(split, Outcome::Stdout { .. }) && split != fused
+        }
         // C02: `short('h').argument("HOST")`: `-h foo` accepted, `-hfoo` "ambiguous"
         "builtin_help_letter_declared_as_argument" => {
             let o = OptSpec::plain(Spec::Seq(vec![arg(1, Names::short('h'), Ty::Str)]));
